@@ -1,12 +1,21 @@
 import Sigc.Model
 import Sigc.Lemmas.Basic
 import Sigc.Lemmas.Frames
+import Sigc.Lemmas.StepConn
+import Sigc.Lemmas.StepHandles
+import Sigc.Lemmas.StepTrack
+import Sigc.Spec
 /-!
 # C18 — signals chain through make_slot(); a dying trackable_signal unhooks itself
-(first theorems; more in Sigc/Lemmas/Step*.lean)
+
+Per-operation theorems about the mechanism model, for every program and fuel.  Theorems about slot
+variables hold for every state; theorems about list cells need the well-formedness `UniqueCells`
+(impl keys and cell ids unique: what the allocator guarantees; decidable, preserved by
+`invalidateTrackable` and `gcImpl`, see Lemmas/StepTrack.lean); `copy_is_distinct` needs the freshness
+`TracksBelow` (every trackable identity referred to by a functor is below `next`; decidable).
 -/
 namespace Sigc.C18
-open Sigc.Model
+open Sigc.Model Sigc.StepConn Sigc.StepHandles Sigc.StepTrack
 
 /-- invoking a `make_slot()` forwarder emits the target signal object with the same argument and
     yields that emission's outcome and result, for every program and fuel -/
@@ -34,7 +43,7 @@ theorem cpG_fresh_trackable (s s' : St) (r : String) (j i im : Nat) (h0 : Handle
     (h : stepSimple s (.cpG j i) = some (s', r)) :
     ∃ hd, aget s'.G j = some hd ∧ hd.trk = s.next + 1 ∧ hd.obj = s.next ∧ hd.impl = some im ∧ hd.fl = h0.fl := by
   simp only [stepSimple, hi, hj, ensureImpl, himpl] at h
-  simp [St.fresh, hi] at h
+  simp [St.fresh] at h
   obtain ⟨rfl, _⟩ := h
   exact ⟨{ obj := s.next, fl := h0.fl, impl := some im, trk := s.next + 1, lvl := h0.lvl }, by simp, rfl, rfl, rfl, rfl⟩
 
@@ -62,7 +71,7 @@ theorem delG_invalidates_forwarders (s s' : St) (r : String) (g : Nat) (h0 : Han
       · simp only [hx, if_true]
         unfold SlotB.invalidate
         cases hr : v0.slot.rep <;> simp [SlotB.tracksObj, hr]
-      · simpa [hx] using hx
+      · simp [hx]
   cases himpl : h0.impl with
   | none =>
     simp [himpl] at hv
@@ -76,5 +85,229 @@ example : invokeFun 2 { bodies := [], top := [] }
       = some ({ G := [(0, { obj := 4, fl := .I, impl := none, trk := 5, lvl := 0 })] }, .ok, 0) := by
   rw [forwarder_emits_target 1 _ _ 4 3 0 [] { obj := 4, fl := .I, impl := none, trk := 5, lvl := 0 } (by simp [handleByObj])]
   rw [emitImpl]
+
+/-- a forwarder whose target object no longer exists is a model error (the library would touch a
+    destroyed signal); the theorems below show trackable_signal forwarders are invalidated before that -/
+theorem forwarder_to_destroyed_object (f : Nat) (P : Prog) (s : St) (o arg : Nat) (ts : List Nat)
+    (hh : handleByObj s o = none) :
+    invokeFun (f+1) P s (.fwd o ts) arg = some (s.fail "forward to a destroyed signal object", .ok, 0) := by
+  rw [invokeFun]
+  simp [hh]
+
+example : (invokeFun 2 { bodies := [], top := [] } {} (.fwd 4 []) 3).map (fun x => (x.1.err, x.2)) =
+    some (some "forward to a destroyed signal object", .ok, 0) := by
+  simp [invokeFun, handleByObj, St.fail]
+
+/-- **forwards**: when the emission loop of `b` reaches a connected, unblocked `a.make_slot()` it emits `a`
+    (the signal object, through its current list) with the same argument; an exception of `a`'s emission
+    propagates, otherwise `a`'s result becomes that slot's result (the running result of `b`'s emission) -/
+theorem forwards (f : Nat) (P : Prog) (s : St) (i cur m arg r o g : Nat) (ts : List Nat) (im : Impl) (c : Cell) (h : Handle)
+    (hne : cur ≠ m) (hi : aget s.impls i = some im) (hc : im.cells.find? (·.id = cur) = some c)
+    (hrep : c.slot.rep = some { call := true, fn := some (.fwd o ts) }) (hb : c.slot.blocked = false)
+    (hh : handleByObj s o = some (g, h)) :
+    emitLoop (f+2) P s i cur m arg r =
+      match emitImpl f P s h.fl h.impl arg .sum with
+      | none => none
+      | some (s1, .exc, v) => some (s1, .exc, v)
+      | some (s1, .ok, v) =>
+        match aget s1.impls i with
+        | none => some (s1.fail "loop: impl destroyed", .ok, v)
+        | some im2 =>
+          match succId im2.cells cur with
+          | none => some (s1.fail "loop: iterator invalidated", .ok, v)
+          | some nxt => emitLoop (f+1) P s1 i nxt m arg v := by
+  rw [emitLoop]
+  simp only [hne, if_false, hi, hc, hrep, hb, Bool.false_eq_true]
+  rw [forwarder_emits_target f P s o arg g ts h hh]
+  cases emitImpl f P s h.fl h.impl arg .sum with
+  | none => rfl
+  | some res =>
+    obtain ⟨s1, oc, v⟩ := res
+    cases oc <;> rfl
+
+/-- chain `b → a`: emitting `b` (list 6: forwarder cell 5, then leaf 8) emits `a` (list 3: leaf 7) with the
+    same argument and then runs `b`'s remaining slot -/
+example : (emitImpl 10 { bodies := [], top := [] } exStT .I (some 6) 4 .sum).map (fun x => (callsOf x.1.trace, x.2)) =
+    some ([(0, 8, 4), (0, 7, 4)], .ok, resultOf 8 4) := by
+  simp [emitImpl, emitLoop, invokeFun, exStT, aget, aset, setImpl, St.fresh, handleByObj, Flavour.isAcc, succId,
+    St.log, eraseCell, nullConns, amap, unrefExec, gcImpl, callsOf, resultOf, collect, collectN]
+
+/-- … and with the forwarder as the last slot, `b`'s result is `a`'s result -/
+example : (emitImpl 10 { bodies := [], top := [] }
+      { exStT with impls := [(3, { cells := [{ id := 4, slot := { rep := some { call := true, fn := some (.leaf 7 []) } }, linked := true }] }),
+                             (6, { cells := [{ id := 5, slot := { rep := some { call := true, fn := some (.fwd 1 [2]) } }, linked := true }] })] }
+      .I (some 6) 4 .sum).map (fun x => (callsOf x.1.trace, x.2)) =
+    some ([(0, 7, 4)], .ok, resultOf 7 4) := by
+  simp [emitImpl, emitLoop, invokeFun, exStT, aget, aset, setImpl, St.fresh, handleByObj, Flavour.isAcc, succId,
+    St.log, eraseCell, nullConns, amap, unrefExec, gcImpl, callsOf, resultOf, collect, collectN]
+
+/-- **dies_with_object (destruction)**: destroying a trackable_signal object invalidates every
+    representation holding a forwarder made from it — slot variables and cells of every list — so no
+    signal can emit the destroyed object afterwards; well-formedness is kept -/
+theorem delG_dies_with_object (s s' : St) (r : String) (g : Nat) (h0 : Handle)
+    (hg : aget s.G g = some h0) (ht : h0.fl.isTrackable = true) (hU : UniqueCells s.impls)
+    (h : stepSimple s (.delG g) = some (s', r)) :
+    r = "ok" ∧ NoTracker s' h0.trk ∧ UniqueCells s'.impls := by
+  obtain ⟨hU1, hC, hS⟩ := invalidateTrackable_no_tracker s h0.trk hU
+  cases himpl : h0.impl with
+  | none =>
+    simp only [stepSimple, hg, ht, himpl] at h
+    simp at h
+    obtain ⟨rfl, rfl⟩ := h
+    exact ⟨rfl, ⟨hS, hC⟩, hU1⟩
+  | some im =>
+    simp only [stepSimple, hg, ht, himpl] at h
+    simp at h
+    obtain ⟨rfl, rfl⟩ := h
+    refine ⟨rfl, ⟨?_, ?_⟩, ?_⟩
+    · intro k v hv
+      simp only [gcImpl_S] at hv
+      exact hS k v hv
+    · intro c hc
+      have h3 := gcImpl_cells_subset _ im c hc
+      exact hC c h3
+    · exact UniqueCells_gcImpl _ im hU1
+
+example : UniqueCells exStT.impls ∧ TracksBelow exStT := by decide
+
+/-- on the concrete state: destroying signal object 0 empties slot variable 0 and erases the forwarder
+    cell 5 from list 6 (connection 0 reports disconnected); the other cells stay -/
+example : (stepSimple exStT (.delG 0)).map (fun x =>
+      (x.1.S.map (fun p => p.2.slot.empty), x.1.impls.map (fun p => p.2.cells.map (·.id)), x.1.C)) =
+    some ([true], [[4], [12]], [(0, none)]) := by
+  decide
+
+/-- **dies_with_object (move construction)**: move-constructing another signal from a trackable_signal
+    (not `accumulated`: that is a copy) invalidates every forwarder made from the source -/
+theorem mvG_dies_with_object (s s' : St) (r : String) (j i : Nat) (h0 : Handle)
+    (hi : aget s.G i = some h0) (hj : aget s.G j = none) (ht : h0.fl.isTrackable = true) (hacc : h0.fl.isAcc = false)
+    (hU : UniqueCells s.impls) (h : stepSimple s (.mvG j i) = some (s', r)) :
+    r = "ok" ∧ NoTracker s' h0.trk ∧ UniqueCells s'.impls := by
+  have key : ∀ s1 : St, UniqueCells s1.impls →
+      NoTracker (invalidateTrackable s1 h0.trk) h0.trk ∧ UniqueCells (invalidateTrackable s1 h0.trk).impls := by
+    intro s1 h1
+    obtain ⟨hU1, hC, hS⟩ := invalidateTrackable_no_tracker s1 h0.trk h1
+    exact ⟨⟨hS, hC⟩, hU1⟩
+  simp only [stepSimple, hi, hj, hacc, ht] at h
+  simp [St.fresh] at h
+  obtain ⟨rfl, rfl⟩ := h
+  exact ⟨rfl, key _ hU⟩
+
+example : (stepSimple exStT (.mvG 3 0)).map (fun x =>
+      (x.1.S.map (fun p => p.2.slot.empty), x.1.impls.map (fun p => p.2.cells.map (·.id)), x.1.G.map (fun p => p.2.impl))) =
+    some ([true], [[4], [12]], [none, some 3, some 6, some 3]) := by
+  decide
+
+/-- **dies_with_object (move assignment)**: move-assigning a trackable_signal that has a list to another
+    signal object invalidates every forwarder made from the source -/
+theorem masgG_dies_with_object (s s' : St) (r : String) (j i : Nat) (d h0 : Handle)
+    (hj : aget s.G j = some d) (hi : aget s.G i = some h0) (hfl : d.fl = h0.fl) (hlvl : d.lvl = h0.lvl) (hji : j ≠ i)
+    (ht : h0.fl.isTrackable = true) (hacc : h0.fl.isAcc = false) (hsome : h0.impl.isSome = true)
+    (hU : UniqueCells s.impls) (h : stepSimple s (.masgG j i) = some (s', r)) :
+    r = "ok" ∧ NoTracker s' h0.trk ∧ UniqueCells s'.impls := by
+  simp only [stepSimple, hj, hi] at h
+  rw [if_neg (by simp [hfl]), if_neg (by simp [hlvl])] at h
+  simp only [hacc, hji, if_false, Bool.false_eq_true, ht, hsome, Bool.and_self, if_true, Option.some.injEq, Prod.mk.injEq] at h
+  obtain ⟨rfl, rfl⟩ := h
+  have hU2 : UniqueCells (match d.impl with
+      | some old => gcImpl { s with G := aset (aset s.G j { d with impl := h0.impl }) i { h0 with impl := none } } old
+      | none => { s with G := aset (aset s.G j { d with impl := h0.impl }) i { h0 with impl := none } }).impls := by
+    cases d.impl with
+    | none => exact hU
+    | some old => exact UniqueCells_gcImpl _ old hU
+  obtain ⟨hU1, hC, hS⟩ := invalidateTrackable_no_tracker _ h0.trk hU2
+  exact ⟨rfl, ⟨hS, hC⟩, hU1⟩
+
+example : (stepSimple exStT (.masgG 1 0)).map (fun x =>
+      (x.1.S.map (fun p => p.2.slot.empty), x.1.impls.map (fun p => p.2.cells.map (·.id)), x.1.G.map (fun p => p.2.impl))) =
+    some ([true], [[4], [12]], [none, some 3, some 6]) := by
+  decide
+
+/-- **copy_is_distinct**: a copy of a trackable_signal has its own, fresh trackable base; destroying the
+    copy invalidates nothing — every slot variable, every list (with all forwarders made from the
+    original) and every connection is untouched, and the shared list lives on -/
+theorem copy_is_distinct (s s1 s2 : St) (r1 r2 : String) (j i : Nat) (h0 : Handle)
+    (hi : aget s.G i = some h0) (hj : aget s.G j = none) (hfresh : TracksBelow s)
+    (h1 : stepSimple s (.cpG j i) = some (s1, r1)) (h2 : stepSimple s1 (.delG j) = some (s2, r2)) :
+    r2 = "ok" ∧ s2.S = s.S ∧ s2.impls = s1.impls ∧ s2.C = s.C ∧ s2.K = s.K ∧
+    aget s2.G i = aget s1.G i ∧ aget s2.G j = none := by
+  have hji : j ≠ i := by intro e; rw [e, hi] at hj; cases hj
+  obtain ⟨sa, im, he, hga, hoth, hSa, hCa, hKa, _, _, hcase⟩ := ensureImpl_cases s i h0 hi
+  simp only [stepSimple, hi, hj, he, hga] at h1
+  simp [St.fresh] at h1
+  obtain ⟨rfl, rfl⟩ := h1
+  -- the copy's trackable base `sa.next + 1` is fresh: nothing refers to it
+  have hnext : sa.next ≥ s.next := by
+    rcases hcase with ⟨_, rfl⟩ | ⟨_, _, rfl⟩
+    · exact Nat.le_refl _
+    · simp [allocImpl]
+  have hsub : ∀ c ∈ allCells sa.impls, c ∈ allCells s.impls := by
+    rcases hcase with ⟨_, rfl⟩ | ⟨_, _, rfl⟩
+    · exact fun c hc => hc
+    · exact fun c hc => allCells_aset_empty_subset _ _ c hc
+  obtain ⟨fS, fI⟩ := TracksBelow_fresh s hfresh (sa.next + 1) (by omega)
+  have hnoop : ∀ (G' : List (Nat × Handle)) (n : Nat),
+      invalidateTrackable { sa with next := n, G := G' } (sa.next + 1) = { sa with next := n, G := G' } := by
+    intro G' n
+    apply invalidateTrackable_noop
+    · intro p hp; exact fS p (by rw [← hSa]; exact hp)
+    · intro c hc; exact fI c (hsub c hc)
+  simp only [stepSimple, aget_aset_same, Bool.false_and, Bool.false_eq_true, if_false, hnoop, ite_self] at h2
+  have hown : ∀ (n : Nat), gcImpl { sa with next := n, G := adel (aset sa.G j
+        { obj := sa.next, fl := h0.fl, impl := some im, trk := sa.next + 1, lvl := h0.lvl }) j } im
+      = { sa with next := n, G := adel (aset sa.G j
+        { obj := sa.next, fl := h0.fl, impl := some im, trk := sa.next + 1, lvl := h0.lvl }) j } := by
+    intro n
+    apply gcImpl_owned
+    apply refersTo_of_aget _ i im { h0 with impl := some im }
+    · simp only []
+      rw [aget_adel_other _ _ _ (Ne.symm hji), aget_aset_other _ _ _ _ (Ne.symm hji)]
+      exact hga
+    · rfl
+  simp only [hown, Option.some.injEq, Prod.mk.injEq] at h2
+  obtain ⟨rfl, rfl⟩ := h2
+  refine ⟨rfl, hSa, rfl, hCa, hKa, ?_, by simp⟩
+  simp only []
+  rw [aget_adel_other _ _ _ (Ne.symm hji)]
+
+example :
+    let run := fun (s : Option (St × String)) (op : Op) => s.bind (fun x => stepSimple x.1 op)
+    let s2 := [Op.cpG 3 0, .delG 3].foldl run (some (exStT, ""))
+    s2.map (fun x => (x.1.S.map (fun p => p.2.slot.empty), x.1.impls.map (fun p => p.2.cells.map (·.id)), x.1.C)) =
+      some ([false], [[4], [5, 12]], [(0, some 5)]) := by
+  decide
+
+/-! ## the specification `S` -/
+
+/-- in `S`, too, invoking a `make_slot()` forwarder is an emission of the target signal object with the
+    same argument, whose outcome and result it yields -/
+theorem spec_forwarder_emits_target (f : Nat) (P : Prog) (s : Spec.LSt) (o arg g : Nat) (ts : List Nat) (h : Handle)
+    (hh : Spec.handleByObj s o = some (g, h)) :
+    Spec.invokeFun (f+1) P s (.fwd o ts) arg = Spec.emitSig f P s h.fl h.impl arg .sum := by
+  rw [Spec.invokeFun]
+  simp [hh]
+
+/-- in `S`, destroying a trackable_signal object empties every slot variable holding a forwarder to it -/
+theorem spec_delG_invalidates_forwarders (s s' : Spec.LSt) (r : String) (g : Nat) (h0 : Handle)
+    (hg : aget s.G g = some h0) (ht : h0.fl.isTrackable = true)
+    (h : Spec.stepSimple s (.delG g) = some (s', r)) :
+    r = "ok" ∧ s'.S = amap s.S (invVar h0.trk) := by
+  simp only [Spec.stepSimple, hg, ht] at h
+  simp at h
+  obtain ⟨rfl, rfl⟩ := h
+  refine ⟨rfl, ?_⟩
+  cases h0.impl with
+  | none => rfl
+  | some im =>
+    simp only [Spec.gcSig]
+    split
+    · rfl
+    · split <;> rfl
+
+example :
+    let s : Spec.LSt := { G := [(0, { obj := 1, fl := .TI, impl := none, trk := 2, lvl := 0 })],
+                          S := [(0, { isVoid := false, slot := { rep := some { call := true, fn := some (.fwd 1 [2]) } } })],
+                          next := 3 }
+    (Spec.stepSimple s (.delG 0)).map (fun x => x.1.S.map (fun p => p.2.slot.empty)) = some [true] := by decide
 
 end Sigc.C18
